@@ -785,6 +785,52 @@ def rule_l9(F):
     return r
 
 
+def rule_l10(F):
+    """A value of a variant that no arm names is handled by the `_` arms: the MIR lowering of `match` keeps the default case of the
+    discriminant switch unless EVERY variant has an arm of its own - a fact about the number of DISTINCT variants the arms name.
+    The comparison with the number of variants therefore reads the size of a set / map keyed by the discriminant, never the length
+    of a list of arms (two guarded arms for `Some` would count as two: the default is dropped, the LIR switch promotes some branch
+    to default, and `None` binds the payload bytes of `Some`).  Shared with C05.A12."""
+    r = RuleResult("C02.L10", "match lowering: the default case is dropped only when the number of DISTINCT variants named by the arms equals the number of variants", floor=1)
+    ps = [p for p in F.paths() if p.startswith("mir::lower::match_expr::") and hir.last(p) in ("r#match", "match") and "{closure" not in p]
+    if not ps:
+        r.missing("mir::lower::match_expr Lowerer::match")
+        return r
+    b = F.body(ps[0])
+    defs = mir.Defs(b)
+    lens = {bi: t for bi, t in mir.calls(b) if hir.last(mir.callee_def(t) or "") == "len"}
+    n = 0
+    for bi, blk in enumerate(b.blocks):
+        for st in blk["stmts"]:
+            if st["k"] != "assign" or st["rv"]["k"] != "bin" or st["rv"].get("op") not in ("Lt", "Le", "Gt", "Ge", "Eq", "Ne"):
+                continue
+            a, c = st["rv"]["a"], st["rv"]["b"]
+            if not (mir.is_place_op(a) and mir.is_place_op(c)):
+                continue
+            sides = []
+            for o in (a, c):
+                ls_ = [x for x in mir.back_calls(b, defs, o[1][0]) if x in lens]
+                sides.append([str(b.mir["locals"][lens[x]["args"][0][1][0]].get("ty") or "") for x in ls_ if mir.is_place_op(lens[x]["args"][0])])
+            if not sides[0] or not sides[1]:
+                continue
+            tys = sides[0] + sides[1]
+            variants_side = [t for t in tys if "Identifier" in t and "TyRef" in t]
+            other = [t for t in tys if t not in variants_side]
+            if not variants_side or not other:
+                continue
+            n += 1
+            distinct = all(any(k in t for k in ("HashSet<", "HashMap<", "BTreeSet<", "BTreeMap<", "IndexSet<", "IndexMap<")) for t in other)
+            r.inst("default decision line-free #%d" % n, {"line": st.get("line"), "compared_with_number_of_variants": other, "counts_distinct_variants": distinct})
+            if not distinct:
+                r.bad(b.path, "default case decided by counting arms", relfile(b.file), st.get("line") or b.line,
+                      "whether the switch keeps its default case is decided by comparing the number of variants with the length of %s - a list of arms, in which a variant with several "
+                      "(guarded) arms counts several times: the default is dropped although some variant has no arm of its own, and a value of that variant is matched as another "
+                      "variant (its payload bytes bound by the wrong pattern)" % other)
+    if n == 0:
+        r.missing("the comparison that decides whether the match switch keeps its default case")
+    return r
+
+
 def rules(ctx):
     F = ctx["F"]
-    return [rule_l1(F), rule_l2(F), rule_l3(F), rule_l4(F), rule_l5(F), rule_l6(F), rule_l7(F), rule_l8(F), rule_l9(F)]
+    return [rule_l1(F), rule_l2(F), rule_l3(F), rule_l4(F), rule_l5(F), rule_l6(F), rule_l7(F), rule_l8(F), rule_l9(F), rule_l10(F)]
